@@ -248,6 +248,12 @@ pub use crate::buffer::Buffer as VBuffer;
 pub use crate::socket::{Socket as VSocket, TcpSocketImpl as VTcpSocket, UdpSocketImpl as VUdpSocket};
 pub use crate::utils::{error_by_expected_size, retry_on_timeout, u8_lower_upper};
 
+/// `maybe_gather!(toggle, outcome)` as a function: what the macro makes of a section whose gathering function
+/// returned `outcome`, inside a function returning `GDResult` (the `Enforce` arm uses `?`).
+pub fn maybe_gather(toggle: crate::protocols::types::GatherToggle, outcome: GDResult<u8>) -> GDResult<Option<u8>> {
+    Ok(crate::utils::maybe_gather!(toggle, outcome))
+}
+
 /// Which string decoder a reader operation uses.
 #[derive(Debug, Clone, Copy, PartialEq, Eq)]
 pub enum Dec {
